@@ -36,6 +36,17 @@ def cxx_cmd(conf):
 def link_args(conf):
     return conf["link_options"].split() + ["-Wl,-rpath," + p for p in conf["rpaths"].split(conf["path_delimiter"]) if p]
 
+def souffle_g(cpp, dl, cwd):
+    """souffle -g; retried while the binary is being relinked by a concurrent check (ETXTBSY / EACCES on exec)."""
+    import time
+    for attempt in range(40):
+        try:
+            return sh([build.SOUFFLE, "-j1", "-g", cpp, dl], timeout=300, cwd=cwd)
+        except OSError as ex:
+            last = ex
+            time.sleep(5)
+    return 126, "", "cannot execute %s: %s" % (build.SOUFFLE, last)
+
 def build_driver(conf, wd):
     obj = os.path.join(wd, "apidrv.o")
     rc, o, e = sh(cxx_cmd(conf) + ["-c", os.path.join(HARNESS, "apidrv.cpp"), "-o", obj], env=build.env(), timeout=900)
@@ -52,7 +63,7 @@ def build_program(P, pdir, conf, drv_obj):
     with open(dl, "w") as f:
         f.write(render.program(P))
     cpp = os.path.join(pdir, name + ".cpp")
-    rc, o, e = sh([build.SOUFFLE, "-j1", "-g", cpp, dl], timeout=300, cwd=pdir)
+    rc, o, e = souffle_g(cpp, dl, pdir)
     if rc != 0 or not os.path.exists(cpp):
         return None, "souffle -g failed rc=%s: %s" % (rc, (e or o)[-1500:])
     exe = os.path.join(pdir, name + ".exe")
@@ -67,7 +78,7 @@ def exposed_relations(P, pdir):
     dl = os.path.join(pdir, P["id"] + ".dl"); cpp = os.path.join(pdir, P["id"] + ".cpp")
     with open(dl, "w") as f:
         f.write(render.program(P))
-    rc, o, e = sh([build.SOUFFLE, "-j1", "-g", cpp, dl], timeout=300, cwd=pdir)
+    rc, o, e = souffle_g(cpp, dl, pdir)
     if rc != 0 or not os.path.exists(cpp):
         return None
     return set(re.findall(r'^addRelation\("([^"]*)"', open(cpp).read(), re.M))
